@@ -493,7 +493,9 @@ func (r *Runtime) Submit(operation *runtime.ClientOperation) (interface{}, error
 	if err != nil {
 		return nil, err
 	}
-	defer res.Body.Close()
+	// close whatever body the response holds when Submit returns: the debug dump below replaces the body by a
+	// copy after closing the original one, so binding the deferred Close to the original would close it twice
+	defer func() { _ = res.Body.Close() }()
 
 	ct := res.Header.Get(runtime.HeaderContentType)
 	if ct == "" { // this should really never occur
